@@ -342,6 +342,7 @@ def engine_workers(chk, n_seeds=4, max_workers=3):
 
 def main():
     chk = Check(PID)
+    chk.default_replay = _replay_workers
     thorough = chk.tier == 'thorough'
     import hiten.algorithms.poincare.centermanifold.backend as cmb
     chk.bound(seeds='4 (thorough: also 5 and 7)', iterations='2 map iterations', workers='1..3 with every completion order (thorough: 1..4)', steps='<= 2 integration steps per return (thorough: 3)', sections='q2, p2, q3, p3')
